@@ -42,14 +42,15 @@ parts = [
        ("C03:frame_value", "r matches Ok(Some(m)) ==> frame_of(m) == first_frame(old(src)@)"),
        ("C03:consumes_exactly_one_frame", "r matches Ok(Some(m)) ==> final(src)@ == frame_rest(old(src)@)"),
        ("C03+C04+C07:none_is_nonmutating", "r matches Ok(None) ==> final(src)@ == old(src)@"),
+       ("C04:consumes_from_the_front_of_the_buffer_only", "final(src).stream() =~= old(src).stream()"),
        ("C03:state_frame", "final(self).state is ReadHeader && final(self).max_msg_size == old(self).max_msg_size"),
        ("C03:dec_step", "dec_step(old(src)@, old(self).max_msg_size, match r { Ok(None) => 0int, Ok(Some(_)) => 1int, Err(_) => 2int }, "
                         "match r { Ok(Some(m)) => frame_of(m), _ => first_frame(old(src)@) }, final(src)@)"),
      ],
-     loops={0: {"invariant": [("C03:loop_state", "self.state is ReadHeader"), ("C03:loop_unchanged", "src@ == old(src)@ && self.max_msg_size == old(self).max_msg_size")],
+     loops={0: {"invariant": [("C03:loop_state", "self.state is ReadHeader"), ("C03:loop_unchanged", "src@ == old(src)@ && src.taken() == old(src).taken() && self.max_msg_size == old(self).max_msg_size")],
                 "decreases": "0int"}},
      hints=[("ext_eq", "return Ok(Some(msg));", 0, "before",
-             "proof { assert(payload(msg) =~= frame_body(old(src)@)); assert(src@ =~= frame_rest(old(src)@)); }")],
+             "proof { assert(payload(msg) =~= frame_body(old(src)@)); assert(src@ =~= frame_rest(old(src)@)); assert(src.taken() + src@ =~= old(src).taken() + old(src)@); }")],
   ),
   Fn(MP, "decode_frame_from_slice", impl=IMPL, emit_impl="impl ZmtpManualParser",
      ensures=slice_contract("src@", True)),
